@@ -622,7 +622,10 @@ def run(ctx):
                evaluations=stats["evaluations"] * len(BACKENDS), programs=stats["evaluations"],
                distinct_nontrivial=len(stats["nontrivial"]),
                rule="programs gen_program(seed, 0..n-1) of gen/progs.py: typed random programs over the feature classes "
-                    "of the histogram, 1/3 of them ending in a chosen trap / fatal error / exit; each compiled with both "
+                    "of the histogram (every ninth one concentrating on integer-literal matches, every ninth one on one of: "
+                    "arrays/vectors of small tuples and structs with neighbours allocated behind them, literal matches on "
+                    "Char/String/tuples/UInt8, loop forms and exits, conversions at their boundaries, records with padding "
+                    "in every kind of home), 1/3 of them ending in a chosen trap / fatal error / exit; each compiled with both "
                     "back ends and compared (stdout, exit status, trap kind = first stderr line) with the Lean reference "
                     "interpreter; non-trivial = executes a checked operation on boundary constants or uses >= 3 feature "
                     "classes; distinct by source hash",
